@@ -95,8 +95,9 @@ def conv(base, v):
         if isinstance(v, float):
             if v != v or v in (math.inf, -math.inf):
                 raise Skip("float-to-int-undefined")
-            if abs(v) > 9007199254740992.0:
-                # the definition computed in floating point what the kernel computes in integers
+            if abs(v) >= 9007199254740992.0:
+                # the definition computed in floating point what the kernel computes in integers (2**53 itself may be
+                # the rounded 2**53 + 1)
                 raise Skip("float-arithmetic-inexact")
             v = math.trunc(v)
             lo, hi = INT_RANGE[base]
